@@ -2189,3 +2189,41 @@ Proof.
   - intros ->. destruct (in_dec Nat.eq_dec j (output n)) as [Hin|Hnin]; [exact Hin|].
     exfalso. apply (Hforb j Hj). apply forbidden_only; [rewrite Esd; apply Hkeys, Hj|exact Hnin].
 Qed.
+
+(* ================================================================== *)
+(* Part 9: from_contraction_tree -- the contractions are exactly the N-1 internal nodes *)
+Lemma init_row_tab c ir : c_tab (init_row c ir) = c_tab c.
+Proof. destruct ir as [i r]. unfold init_row. rewrite init_ix_fold. reflexivity. Qed.
+
+Lemma init_rows_tab l : forall c, c_tab (fold_left init_row l c) = c_tab c.
+Proof. induction l as [|ir l IH]; intros c; cbn [fold_left]; [reflexivity|]. rewrite IH. apply init_row_tab. Qed.
+
+Lemma cc_init_tab tab sd : c_tab (cc_init tab sd) = tab.
+Proof. unfold cc_init. cbn [c_tab set_orig]. rewrite init_rows_tab. reflexivity. Qed.
+
+Lemma nleaves_pos t : (1 <= nleaves t)%nat.
+Proof. induction t; cbn; lia. Qed.
+
+Lemma post_sub_length t : length (post_sub t) = (nleaves t - 1)%nat.
+Proof.
+  induction t as [k|l IHl r IHr]; cbn [post_sub nleaves]; [reflexivity|].
+  rewrite !app_length, IHl, IHr. cbn [length]. pose proof (nleaves_pos l). pose proof (nleaves_pos r). lia.
+Qed.
+
+Lemma traverse_dfs_length t : length (traverse_dfs t) = (nleaves t - 1)%nat.
+Proof.
+  destruct t as [k|l r]; [reflexivity|]. rewrite <- (map_length snd), traverse_dfs_snd. apply post_sub_length.
+Qed.
+
+(* unconditionally: the table of ContractionCosts.from_contraction_tree holds one row per
+   internal node of the tree (N-1 of them for N leaves), in dfs order, each the figures of a
+   Node -- no row for a leaf (an input tensor) *)
+Theorem contractions_are_internal_nodes n sl t :
+  c_tab (costs_of_tree n sl t) = map (row_of n sl) (traverse_dfs t) /\
+  length (c_tab (costs_of_tree n sl t)) = (nleaves t - 1)%nat /\
+  forall bt, In bt (traverse_dfs t) -> exists l r, snd bt = Node l r.
+Proof.
+  unfold costs_of_tree. rewrite cc_init_tab. split; [reflexivity|]. split.
+  - unfold tree_rows. rewrite map_length. apply traverse_dfs_length.
+  - intros bt Hbt. apply (traverse_dfs_nodes t bt Hbt).
+Qed.
